@@ -7,6 +7,7 @@ REGISTRY = {
     "C22": ("modelhist", "ModelHist"),
     "C23": ("modelhist", "ModelHist"),
     "C24": ("modelhist", "ModelHist"),
+    "C25": ("stnhist", "StnHist"),
     "C35": ("envsim", "EnvSim"),
     "C36": ("statehist", "StateHist"),
 }
